@@ -3,21 +3,27 @@ package main
 import (
 	"go/ast"
 	"go/token"
+	"go/types"
+	"reflect"
+	"strings"
 )
 
 func init() {
 	register(&Property{
 		ID:         "C12",
 		Level:      "other",
-		Technique:  "CFG dominance: oneof rejection in JSON/text decoders, clear-before-store in dynamicpb; struct-shape rule over generated code (static)",
-		Explain:    "Decides structural necessary conditions of oneof exclusivity: (1) in protojson and prototext unmarshalMessage the write of any singular field is dominated, for oneof members of every kind, by the seenOneofs rejection test and followed by seenOneofs.Set; (2) in dynamicpb every store into the known-field map made by Set/Mutable is dominated by clearOtherOneofFields, which deletes every other member of the oneof; (3) in every generated message struct each real oneof is a single interface-typed Go field (exclusive by construction).",
-		NotCovered: "which member wins in binary decoding (last-on-wire) and Merge interleavings: value-level; WhichOneof correctness on values.",
-		Quick:      all("./encoding/protojson", "./encoding/prototext", "./types/dynamicpb"),
+		Technique:  "CFG dominance: oneof rejection in JSON/text decoders, clear-before-store in dynamicpb, wrapper-identity test before wrapper reuse in the fast-path oneof decoder and merge; struct-shape rule over generated code (static)",
+		Explain:    "Decides structural necessary conditions of oneof exclusivity: (1) in protojson and prototext unmarshalMessage the write of any singular field is dominated, for oneof members of every kind, by the seenOneofs rejection test and followed by seenOneofs.Set; (2) in dynamicpb every store into the known-field map made by Set/Mutable is dominated by clearOtherOneofFields, which deletes every other member of the oneof; (3) in every generated message struct each real oneof is a single interface-typed Go field (exclusive by construction); (4) the fast-path binary decoder of a oneof member decodes into the stored wrapper only when it is that member's wrapper (dynamic type test against the wrapper type) and otherwise allocates and stores the member's own wrapper, so the last member on the wire becomes the active one; the oneof merge replaces the wrapper unless it already holds the same member.",
+		NotCovered: "last-on-wire on concrete inputs and Merge interleavings as histories; WhichOneof correctness on values; the reflection (slow-path) binary decoder relies on Message.Set of the implementation.",
+		Quick:      all("./encoding/protojson", "./encoding/prototext", "./types/dynamicpb", "./internal/impl", "./types/known/structpb"),
 		Thorough:   all("./..."),
 		Run: func(c *Ctx) {
 			c.ruleSeenFields("R-SEEN-FIELDS", "encoding/protojson.decoder.unmarshalMessage", "encoding/protojson.decoder.unmarshalSingular", "internal/encoding/json.(*Decoder).Read")
 			c.ruleSeenFields("R-SEEN-FIELDS", "encoding/prototext.decoder.unmarshalMessage", "encoding/prototext.decoder.unmarshalSingular", "internal/encoding/text.(*Decoder).Read")
 			c.ruleDynOneof("R-DYN-ONEOF")
+			c.ruleGenOneofShape("R-GEN-ONEOF-SHAPE", 4)
+			c.ruleOneofReuse("R-ONEOF-REUSE")
+			c.ruleOneofMerge("R-ONEOF-MERGE")
 		},
 	})
 }
@@ -95,5 +101,162 @@ func (c *Ctx) ruleDynOneof(rule string) {
 			return true
 		})
 		R.Check(ok, rule, fi.Key, P.Pos(fi.Decl), "loops over the oneof's fields and deletes every other number", "clearOtherOneofFields no longer deletes every other member of the oneof inside its loop")
+	}
+}
+
+// R-ONEOF-REUSE: the binary decoder of a oneof member decodes into the wrapper
+// the message already holds only if that wrapper is this member's wrapper
+// (its dynamic type is the member's wrapper type taken from
+// oneofWrappersByNumber); otherwise it allocates the member's own wrapper and
+// stores it. Reusing the wrapper of another member (say, one with the same
+// payload Go type) leaves the previous member active after a later member was
+// decoded: WhichOneof names the wrong field.
+func (c *Ctx) ruleOneofReuse(rule string) {
+	R, P := c.R, c.P
+	R.Rule(rule, "in the oneof unmarshal closure of initOneofFieldCoders the wrapper decoded into is either freshly allocated with the member's wrapper type (from oneofWrappersByNumber) or the stored wrapper under the dominating test that its pointee's dynamic type equals that wrapper type; the wrapper is stored back into the oneof field", 2)
+	fi := c.need(rule, "internal/impl.(*MessageInfo).initOneofFieldCoders")
+	if fi == nil {
+		return
+	}
+	info := fi.Info()
+	outerDefs := localDefs(fi.Decl.Body, info)
+	isWrapperType := func(e ast.Expr) bool {
+		o := objOf(info, e)
+		if o == nil {
+			return false
+		}
+		for _, d := range outerDefs[o] {
+			ix, ok := unparen(d.rhs).(*ast.IndexExpr)
+			if !ok {
+				return false
+			}
+			if _, f, ok := fieldSel(info, ix.X); !ok || f != "oneofWrappersByNumber" {
+				return false
+			}
+		}
+		return len(outerDefs[o]) > 0
+	}
+	n := 0
+	for _, br := range bodiesOf(fi) {
+		if br.Lit == nil {
+			continue
+		}
+		sig, ok := info.TypeOf(br.Lit).(*types.Signature)
+		if !ok || sig.Results().Len() != 2 || namedTypeName(sig.Results().At(0).Type()) != "internal/impl.unmarshalOutput" {
+			continue
+		}
+		g := newCFG(br.Body, info)
+		// the variable passed (through pointerOfValue) to the member's unmarshal function
+		var stores, reuses, fresh int
+		walk(br.Body, func(x ast.Node) bool {
+			as, ok := x.(*ast.AssignStmt)
+			if !ok || as.Tok != token.ASSIGN || len(as.Lhs) != 1 || len(as.Rhs) != 1 {
+				return true
+			}
+			id, ok := as.Lhs[0].(*ast.Ident)
+			if !ok || namedTypeName(info.TypeOf(id)) != "reflect.Value" {
+				return true
+			}
+			rhs := unparen(as.Rhs[0])
+			if call, ok := rhs.(*ast.CallExpr); ok && calleeKey(info, call) == "reflect.New" && len(call.Args) == 1 {
+				fresh++
+				n++
+				R.Check(isWrapperType(call.Args[0]), rule, br.Name+" fresh wrapper", P.Pos(as), "reflect.New("+exprStr(call.Args[0])+") with the member's wrapper type", "the freshly allocated wrapper does not have the member's wrapper type from oneofWrappersByNumber")
+				return true
+			}
+			reuses++
+			n++
+			want := exprStr(rhs) + ".Elem().Type()"
+			good := g.DominatedByCond(as, func(core ast.Expr, val bool) bool {
+				be, ok := unparen(core).(*ast.BinaryExpr)
+				if !ok || !((be.Op == token.EQL && val) || (be.Op == token.NEQ && !val)) {
+					return false
+				}
+				return (exprStr(unparen(be.X)) == want && isWrapperType(be.Y)) || (exprStr(unparen(be.Y)) == want && isWrapperType(be.X))
+			})
+			R.Check(good, rule, br.Name+" reused wrapper", P.Pos(as), "reused only when "+want+" equals the member's wrapper type", "the stored wrapper ("+exprStr(rhs)+") is decoded into without establishing that its dynamic type is this member's wrapper type: after decoding, the previously active member stays active (another member with the same payload type shares the test)")
+			return true
+		})
+		walk(br.Body, func(x ast.Node) bool {
+			if call, ok := x.(*ast.CallExpr); ok && calleeKey(info, call) == "reflect.Value.Set" {
+				stores++
+			}
+			return true
+		})
+		if fresh+reuses > 0 {
+			n++
+			R.Check(stores > 0 && fresh > 0, rule, br.Name+" store", P.Pos(br.Lit), "wrapper stored back into the oneof field", "the decoded wrapper is never stored into the oneof field, or no fresh wrapper can be allocated")
+		}
+	}
+	if n == 0 {
+		R.Unk(rule, fi.Key, P.Pos(fi.Decl), "oneof unmarshal closure not found")
+	}
+}
+
+// R-GEN-ONEOF-SHAPE: in generated code a real oneof is one interface-typed
+// struct field (tag protobuf_oneof); its members live in wrapper structs of
+// exactly one field (tag `protobuf:"…,oneof"`), so two members cannot be
+// stored at once. A member field placed directly in the message struct would
+// be populated independently of the oneof field.
+func (c *Ctx) ruleGenOneofShape(rule string, floor int) {
+	R, P := c.R, c.P
+	R.Rule(rule, "every struct field tagged protobuf_oneof has an interface type with at least one (marker) method, and every type of the package that implements such an interface is a struct of exactly one field whose protobuf tag carries the `oneof` option (a wrapper of one member)", floor)
+	for _, pk := range P.Pkgs {
+		scope := pk.Types.Scope()
+		var ifaces []*types.Interface
+		names := scope.Names()
+		for _, nm := range names {
+			tn, ok := scope.Lookup(nm).(*types.TypeName)
+			if !ok {
+				continue
+			}
+			st, ok := tn.Type().Underlying().(*types.Struct)
+			if !ok {
+				continue
+			}
+			for i := 0; i < st.NumFields(); i++ {
+				tag := reflect.StructTag(st.Tag(i))
+				if on, ok := tag.Lookup("protobuf_oneof"); ok {
+					it, isIface := st.Field(i).Type().Underlying().(*types.Interface)
+					R.Check(isIface && it.NumMethods() > 0, rule, pk.PkgPath[len(modPath)+1:]+"."+nm+"."+st.Field(i).Name()+" oneof "+on, P.PosOf(st.Field(i).Pos()), "interface-typed oneof field", "the oneof is not represented by one interface-typed field: its members can be populated independently")
+					if isIface {
+						ifaces = append(ifaces, it)
+					}
+				}
+			}
+		}
+		// every type implementing a oneof interface is a one-field wrapper whose field is tagged `oneof`
+		for _, nm := range names {
+			tn, ok := scope.Lookup(nm).(*types.TypeName)
+			if !ok || len(ifaces) == 0 {
+				continue
+			}
+			if _, isIface := tn.Type().Underlying().(*types.Interface); isIface {
+				continue
+			}
+			pt := types.NewPointer(tn.Type())
+			impl := false
+			for _, it := range ifaces {
+				if it.NumMethods() > 0 && (types.Implements(pt, it) || types.Implements(tn.Type(), it)) {
+					impl = true
+				}
+			}
+			if !impl {
+				continue
+			}
+			st, isStruct := tn.Type().Underlying().(*types.Struct)
+			good := isStruct && st.NumFields() == 1
+			if good {
+				good = false
+				if ptag, ok := reflect.StructTag(st.Tag(0)).Lookup("protobuf"); ok {
+					for _, part := range strings.Split(ptag, ",") {
+						if part == "oneof" {
+							good = true
+						}
+					}
+				}
+			}
+			R.Check(good, rule, pk.PkgPath[len(modPath)+1:]+"."+nm+" wrapper", P.PosOf(tn.Pos()), "one-field wrapper struct for one member", "a type implementing a oneof interface is not a one-field wrapper of a single member: two members could be held at once")
+		}
 	}
 }
